@@ -10,7 +10,10 @@ MET_IDS = ["a", "b_c", "m-1", "x[e]", "h2o.c", "α-D", "3pg", "M_", "glc__D_e", 
            "m:1", "(R)", "A#1", "p%", "a=b", "a+b", "_", "a__45__b", "true", "1e3", "null"]
 RXN_IDS = ["R1", "EX_a(e)", "r-2", "PFK.1", "β", "R_", "3x", "r:4", "R[5]", "r'6", "a|b", "r__91__", "yes", "0"]
 GENE_IDS = ["g1", "b0001", "G_2", "s0001.1", "YAL-1", "g5", "x7"]
-NAMES = ["", "Water", "α name", "n (1)", "it's", 'say "x"', "a: b", "# hash", "- dash", "1.0", "~"]
+NAMES = ["", "Water", "α name", "n (1)", "it's", 'say "x"', "a: b", "# hash", "- dash", "1.0", "~",
+         # long names with non-ASCII characters beyond column 80 (peptidoglycan precursors are like that)
+         "undecaprenyl-diphospho-N-acetylmuramoyl-L-alanyl-gamma-D-glutamyl-N6-(ε-pentaglycyl)-L-lysyl-D-alanyl-D-alanine x",
+         "Lipid II (β-1,4 linked N-acetylglucosamine-N-acetylmuramoyl-pentapeptide)-pyrophosphoryl-undecaprenol-ε form y"]
 COMPS = [None, "c", "e", "", "C_x", "p", "c"]
 COMP_NAMES = ["", "cytosol", "extra cellular", "C: x"]
 FORMULAS = [None, None, "H2O", "C6H12O6", "", "C10H12N5O13P3", "XR"]
